@@ -1,6 +1,10 @@
 package fasthttputil
 
-import "io"
+import (
+	"io"
+	"net"
+	"runtime"
+)
 
 // C33 — in-memory pipes behave like a reliable byte stream.
 
@@ -59,4 +63,89 @@ func vhC33PipeStream() {
 	vAssert("reader-gets-exactly-the-bytes-in-order", string(got) == string(want))
 	_, werr := w.Write([]byte("x"))
 	vAssert("write-after-close-fails", werr != nil)
+}
+
+// vhC33Listener: InmemoryListener with one or two dialers, one accepter loop
+// and a Close issued at a chosen moment, all as goroutines on the engine's
+// scheduler (switch points: blocking channel operations and explicit yields;
+// a select with several ready cases explores each of them). Successful Dials
+// and successful Accepts pair up one to one, each pair is a working pipe, and
+// after Close has returned neither Dial nor Accept succeeds.
+func vhC33Listener() {
+	ln := NewInmemoryListener()
+	nd := 1 + vChoose("dialers", 2)
+	type dialRes struct {
+		c   net.Conn
+		err error
+	}
+	dials := make([]dialRes, nd)
+	done := make(chan int, 8)
+	for i := 0; i < nd; i++ {
+		i := i
+		go func() {
+			vYield()
+			c, err := ln.Dial()
+			dials[i] = dialRes{c, err}
+			done <- i
+		}()
+	}
+	var accepted []net.Conn
+	accDone := make(chan struct{})
+	go func() {
+		for {
+			vYield()
+			c, err := ln.Accept()
+			if err != nil {
+				close(accDone)
+				return
+			}
+			accepted = append(accepted, c)
+		}
+	}()
+	// Close at a chosen point of the schedule
+	for k := vChoose("closeAfterYields", 4); k > 0; k-- {
+		runtime.Gosched()
+	}
+	ln.Close()
+	for i := 0; i < nd; i++ {
+		<-done
+	}
+	<-accDone
+	ok := 0
+	for _, d := range dials {
+		if d.err == nil {
+			ok++
+		}
+	}
+	vAssert("successful-dials-and-accepts-pair-up", ok == len(accepted))
+	// each successful dial is connected to exactly one accepted peer
+	paired := true
+	for i, d := range dials {
+		if d.err != nil {
+			continue
+		}
+		if _, err := d.c.Write([]byte{byte('a' + i)}); err != nil {
+			paired = false
+		}
+	}
+	seen := map[byte]int{}
+	for _, s := range accepted {
+		var b [1]byte
+		n, err := s.Read(b[:])
+		if n != 1 || err != nil {
+			paired = false
+		} else {
+			seen[b[0]]++
+		}
+	}
+	for i, d := range dials {
+		if d.err == nil && seen[byte('a'+i)] != 1 {
+			paired = false
+		}
+	}
+	vAssert("each-pair-is-a-working-pipe", paired)
+	_, err := ln.Dial()
+	vAssert("no-dial-after-close", err != nil)
+	_, err = ln.Accept()
+	vAssert("no-accept-after-close", err != nil)
 }
